@@ -948,3 +948,20 @@ def bind_tail(ctx, fw, unit, fnnode, name, proof_text, tags=()):
     fw.insert(s_, "let %s = " % name, rule="W10-bind-tail")
     ed = fw.insert(e_, ";\n        %s\n        %s" % (proof_text.strip(), name), rule="W10-bind-tail")
     ctx.clause(unit, "ghost", proof_text, set(tags), ed)
+
+
+def filter_keys_collect(fw, fnnode):
+    """R-std: the body `M.iter().filter(|(_, V)| P).map(|(K, _)| K.clone()).collect()` of a function becomes
+    `v_filter_keys(&M, |V: &ItemDefinition| P)` (verified prelude helper over vstd's model of HashMap::iter); the
+    predicate text P is kept verbatim.  Returns the span of the new closure for its annotation."""
+    import re
+    st = fw.top_stmts(fnnode)
+    if len(st) != 1 or st[0]["kind"] != "stmt_expr":
+        raise WeaveError("%s: R-std filter-keys: `%s` is not a single expression" % (fw.rel, fw.fn_qualname(fnnode)))
+    a, b = st[0]["span"]
+    t = fw.text((a, b))
+    m = re.match(r"^\s*([\w.]+)\s*\.iter\(\)\s*\.filter\(\|\(_, (\w+)\)\|\s*(.*?)\)\s*\.map\(\|\((\w+), _\)\|\s*\4\.clone\(\)\)\s*\.collect\(\)\s*$", t, re.S)
+    if not m:
+        raise WeaveError("%s: R-std filter-keys: `%s` is not M.iter().filter(|(_, v)| P).map(|(k, _)| k.clone()).collect()" % (fw.rel, fw.fn_qualname(fnnode)))
+    mp, v, pred = m.group(1), m.group(2), m.group(3).strip()
+    return mp, v, pred, (a, b)
